@@ -1026,6 +1026,20 @@ class Gen(object):
             op['lo'], op['hi'] = r.choice([(0, 1), (-1, 1), (-2.5, 0.5), (1, 3)])
             if self.w.containers and 'containers' in self.p.groups and r.random() < 0.5:
                 op[r.choice(['lo_c', 'hi_c'])] = r.randrange(len(self.w.containers))
+        if op['route'] == 'method' and r.random() < 0.3:
+            # the method form with the wrappers' keywords: x.sum(out=r), x.max(out_like=t, sizing='same')
+            op['kw_on_method'] = True
+            q = r.random()
+            if q < 0.45:
+                ko, _ = self.pick(self.is_real)
+                op['out'] = ko
+            elif q < 0.75:
+                ko, _ = self.pick(self.is_real)
+                op['out_like'] = ko
+            if r.random() < 0.4:
+                op['sizing'] = r.choice(SIZINGS)
+            if r.random() < 0.3:
+                op['method'] = r.choice(['raw', 'repr'])
         if op['route'] == 'fn':
             if r.random() < 0.5:
                 op['sizing'] = r.choice(SIZINGS)
